@@ -83,6 +83,13 @@ PROPS["C10"] = dict(engine="E11", level="exploration",
    level_text="Seeded exploration over (stream length x stalled-subset x position) with exact oracles: every publication completes in bounded virtual time (else bubble deadlock / timeout with goroutine dump), healthy leaves receive the exact published sequence, caches stay current at every barrier, and what a stalled consumer holds afterwards is an in-order subsequence of at least min(L, buffer) events.",
    design_ref="DESIGN.md 5.10", technique="runtime monitoring: per-leaf sequence checker (exact for healthy, in-order-subsequence + conservation lower bound for stalled), bounded-progress watchdog in virtual time")
 
+PROPS["C11"] = dict(engine="E12", level="exploration",
+   rule="seeded random trees of 8-12 nodes to depth 4 over a real controller mixing Subscribe / SubscribeWithFilter / SubscribeForFilter / Clone / CloneWithFilter / CloneForFilter / monitors; EVERY node of every tree as the victim x moment in {before ready, idle, events in flight, parked inside a Refilter, list in flight} x mechanism (node Close(); for the root also context cancel and a failing list); quick keeps half of the (victim, moment) pairs for non-root victims. distinct = (tree, victim, moment, mechanism); non-trivial = the victim's subtree was checked closed and every node outside checked alive (and, when the root survives, functional on 20 further mutations). Joins as tree members are exercised in E10 (C09 close clause).",
+   assumptions=["'eventually closes' is restated as: within 3 refresh periods + 10s of virtual time"],
+   floors={"any": {"subtree-nodes-checked": 500, "outside-nodes-checked": 1000, "survivor-rounds": 100}},
+   level_text="Seeded exploration over (tree x victim x moment x mechanism): after closing the victim every node of its subtree has Done() closed and Events() closed after its buffered events; every other node is still open and functional (caches follow the server, filtered nodes equal filter(parent), subscribers and monitors keep receiving).",
+   design_ref="DESIGN.md 5.11", technique="runtime monitoring: lifecycle oracle over every node after closing each node in turn, plus functional (convergence/mirror) oracles on the survivors, in virtual time")
+
 ENGINES = {
  "E1": dict(path="harness/engines/e01_cache_test.go", kind="direct drive of the cache actor vs reference model R-cache; exhaustive small universe + random walks"),
  "E4": dict(path="harness/engines/e04_converge_test.go", kind="real controller over fault-injecting fake API server; convergence oracles at virtual-time quiescence"),
@@ -94,5 +101,6 @@ ENGINES = {
  "E8": dict(path="harness/engines/e08_refilter_test.go", kind="exhaustive Refilter delta check over contents x filter pairs x node variants"),
  "E9": dict(path="harness/engines/e09_ready_test.go", kind="exhaustive readiness-order enumeration on filtered subscriptions/clones"),
  "E11": dict(path="harness/engines/e11_slow_test.go", kind="stalled/slow consumers at every tree position; healthy vs stalled stream oracles"),
+ "E12": dict(path="harness/engines/e12_cascade_test.go", kind="every node of random trees closed in turn at several moments; subtree/complement lifecycle oracle"),
 }
 NA = {}
